@@ -24,7 +24,7 @@ IMPORTS = ["UPV.Core.Expr", "UPV.Core.Eval", "UPV.Core.Interp", "UPV.Planning.Pr
 IMPORTS_G = IMPORTS + ["UPV.Planning.Ground", "UPV.Corr.Corr_C01g"]      # the comparison with the grounded model (C01 only)
 
 # bits of Corr_C01g.codeg above those of Corr_C01.code
-G_DIFF, G_CONFLICT, G_VARS, G_MATTERS, G_FUEL, G_RAISES, G_OUTSIDE, G_ISAPP = 32, 64, 128, 256, 512, 1024, 2048, 4096
+G_DIFF, G_CONFLICT, G_VARS, G_MATTERS, G_FUEL, G_RAISES, G_OUTSIDE, G_ISAPP, G_UNDEF = 32, 64, 128, 256, 512, 1024, 2048, 4096, 8192
 
 
 def extra_corpus():
@@ -193,14 +193,19 @@ def classify(ex, rec, code, grounded=False):
     grounded=False: `code` comes from Corr_C01.code (C03's diagnosis); the three grounder-related shapes are recognised
     by the Python heuristics above.  grounded=True: `code` comes from Corr_C01g.codeg; the Coq verdict is used: whether
     the implementation equals the grounded model (bit 32), whether the MODEL's grounding was rejected by the syntactic
-    conflict check (bit 64) and whether a grounded effect lost a forall variable (bit 128).  A dropped read of an
-    undefined fluent has no bit of its own (it is what remains when the grounded model is applicable and the strict
-    documented step is not), so the Python heuristic still names it."""
+    conflict check (bit 64), whether a grounded effect lost a forall variable (bit 128), and whether the grounded
+    action evaluated strictly is applicable while the strict documented step is not (bit 8192: with bits 64/128/2048/4
+    clear, C01_grounded_strict_refines_semantic shows that a read of a fluent without value was simplified away).
+    The Python heuristic for that last shape is kept as a second source (mixed cases: a dropped read next to a
+    short-circuited quantifier)."""
     tags = ["c01"]
     dev = bool(code & 1 and code & 2)                      # differs from the documented step and from the semantic-level model
-    if rec["apply"] is not None and dev and dropped_undefined_read(ex, rec):
+    proved_dropped = grounded and bool(code & G_UNDEF) and not code & (G_CONFLICT | G_VARS | G_OUTSIDE | 4)
+    if rec["apply"] is not None and dev and (proved_dropped or dropped_undefined_read(ex, rec)):
         tags.append("grounder-simplification-drops-undefined-read")
         tags.append("impl-applicable")
+    if proved_dropped:
+        tags.append("grounded-model:undefined-read-simplified-away")
     if grounded:
         vanishes = bool(code & G_VARS) and has_forall_incdec(rec)
         rejects = bool(code & G_CONFLICT)
@@ -250,6 +255,7 @@ def run(ctx):
              "states": 0, "goal_states": 0, "effects_kinds": {},
              "grounded": {"impl_equals_grounded_model": 0, "grounding_changes_the_semantic_model": 0,
                           "syntactic_conflicts": 0, "forall_variable_dropped": 0,
+                          "undefined_read_simplified_away": 0,
                           "inside_static_hypotheses_of_grounded_theorem": 0, "semantic_model_only_differs": 0}}
     for ex in exs:
         if ex.skipped is not None:
@@ -290,6 +296,7 @@ def run(ctx):
         g["grounding_changes_the_semantic_model"] += bool(code & G_MATTERS)
         g["syntactic_conflicts"] += bool(code & G_CONFLICT)
         g["forall_variable_dropped"] += bool(code & G_VARS)
+        g["undefined_read_simplified_away"] += bool(code & G_UNDEF)
         g["inside_static_hypotheses_of_grounded_theorem"] += not code & G_OUTSIDE
         bad_spec = bool(code & 1) or bool(rec["raised"]) or rec.get("state_changed")
         # the model of the code is the GROUNDED model; the semantic-level model (bit 1 of the code, value 2) is kept
